@@ -919,4 +919,9 @@ SEEDS = [
     dict(id='RR2-key-insert-repair-climb-on-black', props=['C02'], file='src/key/tree.rs',
          old="""            if gg_index != EMPTY_REF && self.node(gg_index).color == Color::Red {""",
          new="""            if gg_index != EMPTY_REF && self.node(gg_index).color == Color::Black {""", note='continues only when nothing is wrong, stops when two reds meet'),
+
+    dict(id='SF9-seg-iter-literal-start-place', props=['C03'], file='src/seg/tree.rs',
+         old="""        iter.i0 = iter.find_next_not_empty_chunk();
+""",
+         new="""""", note='the iterator starts at place 0 without consuming its bit: the root list is scanned twice'),
 ]
